@@ -130,3 +130,68 @@ def param_indices(prog, origins, lf):
             return None
         out.add(pi[1])
     return out
+
+
+ALL_OR_ERROR_WRITES = ("write_all", "write_fmt", "write_all_vectored")
+
+
+def bucket_data_writes(w, lf):
+    """Data-write effects (not flush) of an INDEX_INSERT on its bucket handle, and every other data write it makes."""
+    effs = w.own_effects(lf)
+    writes = [e for e in effs if e.kind == "WriteData" and e.flags.get("op") not in ("flush",)
+              and e.classes.get("handle", ("?",))[0] == "Handle" and e.classes["handle"][1][0] == "Bucket"]
+    others = [e for e in effs if e.kind in ("WriteData", "WriteFile") and e not in writes and e.flags.get("op") != "flush"]
+    return writes, others
+
+
+def record_emission(w, lf):
+    """How an INDEX_INSERT emits its record: the bucket writes in execution order (each must dominate the next) and the
+    concatenation of what they write as format pieces — ("lit", str) | ("arg", how, term, spec). `pieces` is None when
+    the order or a buffer cannot be determined; `problems` says why."""
+    from ..symval import walk
+    prog = w.prog
+    writes, others = bucket_data_writes(w, lf)
+    problems = []
+    if not writes:
+        return dict(writes=[], others=others, pieces=None, problems=["no data write on the bucket handle"])
+    body = writes[0].body
+    if any(e.body is not body for e in writes):
+        return dict(writes=writes, others=others, pieces=None, problems=["bucket writes are spread over several bodies"])
+    cf = prog.cfg(body)
+    dom = cf.dominators()
+    order = sorted(writes, key=lambda e: len(dom.get(e.blk, ())))
+    for a, b in zip(order, order[1:]):
+        if a.blk == b.blk or a.blk not in dom.get(b.blk, ()):
+            problems.append("bucket writes are not on one straight path (alternative or repeated writes)")
+    loops = cf.loops()
+    for e in order:
+        if any(e.blk in bl for _, bl in loops):
+            problems.append("a bucket write sits inside a loop")
+    pieces = []
+    for e in order:
+        op = e.flags.get("op")
+        fm = None
+        if op == "write_fmt":
+            fm = w.sym._fmt(e.body, e.term, 0, argi=1)
+        else:
+            t = w.sym.of_operand(e.body, e.term.args[1])
+            for st in walk(t):
+                if st[0] == "fmt":
+                    fm = st
+                    break
+            if fm is None:
+                if t[0] == "const" and isinstance(t[1], (str, bytes)):
+                    v = t[1].decode("utf-8", "replace") if isinstance(t[1], bytes) else t[1]
+                    fm = ("fmt", (("lit", v),))
+                else:
+                    fm = ("fmt", (("arg", "new_display", t, 0xC0),))
+        if fm is None:
+            problems.append("the buffer of `%s` is not understood" % op)
+            pieces = None
+            break
+        for pc in fm[1]:
+            if pc[0] == "lit" and pieces and pieces[-1][0] == "lit":
+                pieces[-1] = ("lit", pieces[-1][1] + pc[1])
+            else:
+                pieces.append(pc)
+    return dict(writes=order, others=others, pieces=pieces, problems=problems)
